@@ -1,1 +1,73 @@
-pub fn cmd_helpers(_args: &[String]) { unimplemented!() }
+//! Direct calls of the crate's public coercion helpers (jsonlogic_rs::js_op::*), projected to an Outcome.
+//! Results: bool -> JSON bool; String -> JSON string; f64 -> float-spelled JSON number, or the strings
+//! "NaN" / "Infinity" / "-Infinity" when not finite; Option::None and Result::Err -> Err outcome.
+
+use crate::run::Outcome;
+use jsonlogic_rs::js_op;
+use serde_json::{Number, Value};
+use std::panic;
+
+fn fval(f: f64) -> Value {
+    if f.is_nan() {
+        Value::String("NaN".into())
+    } else if f.is_infinite() {
+        Value::String(if f > 0.0 { "Infinity".into() } else { "-Infinity".into() })
+    } else {
+        Value::Number(Number::from_f64(f).unwrap())
+    }
+}
+
+fn call(name: &str, args: &[Value]) -> Result<Option<Value>, String> {
+    let refs: Vec<&Value> = args.iter().collect();
+    let a = |i: usize| -> &Value { &args[i] };
+    Ok(match name {
+        "to_string" => Some(Value::String(js_op::to_string(a(0)))),
+        "str_to_number" => match a(0) {
+            Value::String(s) => js_op::str_to_number(s).map(fval),
+            _ => return Err("str_to_number needs a string".into()),
+        },
+        "to_number" => js_op::to_number(a(0)).map(fval),
+        "parse_float" => js_op::parse_float(a(0)).map(fval),
+        "abstract_eq" => Some(Value::Bool(js_op::abstract_eq(a(0), a(1)))),
+        "abstract_ne" => Some(Value::Bool(js_op::abstract_ne(a(0), a(1)))),
+        "strict_eq" => Some(Value::Bool(js_op::strict_eq(a(0), a(1)))),
+        "strict_ne" => Some(Value::Bool(js_op::strict_ne(a(0), a(1)))),
+        "abstract_lt" => Some(Value::Bool(js_op::abstract_lt(a(0), a(1)))),
+        "abstract_lte" => Some(Value::Bool(js_op::abstract_lte(a(0), a(1)))),
+        "abstract_gt" => Some(Value::Bool(js_op::abstract_gt(a(0), a(1)))),
+        "abstract_gte" => Some(Value::Bool(js_op::abstract_gte(a(0), a(1)))),
+        "abstract_max" => js_op::abstract_max(&refs).ok().map(fval),
+        "abstract_min" => js_op::abstract_min(&refs).ok().map(fval),
+        "abstract_plus" => Some(js_op::abstract_plus(a(0), a(1))),
+        "parse_float_add" => js_op::parse_float_add(&refs).ok().map(fval),
+        "parse_float_mul" => js_op::parse_float_mul(&refs).ok().map(fval),
+        "abstract_minus" => js_op::abstract_minus(a(0), a(1)).ok().map(fval),
+        "abstract_div" => js_op::abstract_div(a(0), a(1)).ok().map(fval),
+        "abstract_mod" => js_op::abstract_mod(a(0), a(1)).ok().map(fval),
+        "to_negative" => js_op::to_negative(a(0)).ok().map(fval),
+        _ => return Err(format!("unknown helper {}", name)),
+    })
+}
+
+pub fn run_helper(name: &str, args: &[Value]) -> Result<Outcome, String> {
+    let res = panic::catch_unwind(|| call(name, args));
+    Ok(match res {
+        Ok(Ok(Some(v))) => Outcome { ok: true, v, log: vec![], events: vec![], crash: None },
+        Ok(Ok(None)) => Outcome { ok: false, v: Value::Null, log: vec![], events: vec![], crash: None },
+        Ok(Err(e)) => return Err(e),
+        Err(p) => {
+            let msg = if let Some(s) = p.downcast_ref::<&str>() {
+                s.to_string()
+            } else if let Some(s) = p.downcast_ref::<String>() {
+                s.clone()
+            } else {
+                "panic".to_string()
+            };
+            Outcome { ok: false, v: Value::Null, log: vec![], events: vec![], crash: Some(format!("panic in js_op::{}: {}", name, msg)) }
+        }
+    })
+}
+
+pub fn cmd_helpers(_args: &[String]) {
+    eprintln!("helper cases are replayed by `replay` (cases with an \"fn\" field)");
+}
